@@ -23,6 +23,7 @@ import SSEPyVerif.Model.Schemes.Pi2Lev
 import SSEPyVerif.Proofs.Schemes.PiPtrPlace
 import SSEPyVerif.Proofs.Schemes.Pi2LevPlace
 import SSEPyVerif.Proofs.Schemes.SSE1Place
+import SSEPyVerif.Proofs.Schemes.DP17Place
 namespace SSEPy.C06
 open SSEPy.Sch
 
@@ -155,6 +156,17 @@ theorem SSE1.placement_is_prp_image (raw : RawCfg) (cfg : SSE1Cfg) (hcfg : SSE1.
     K1 K2 K3 K4 pre w ids post t t' edb hs
     (SSE1.psiInj_of_leaves cfg lv hl.hmac_len h2 K1 _) (SSE1.psiLen_of_leaves cfg lv hl.hmac_len h2 K1) hk hidl hkeys
     (SSE1.gammaInj_of_leaves cfg lv hl.hmac_len hl8 K3 _ hvalid)
+
+/-- DP17, the keyword loop of `Setup` (`placeChunks` = the body of `for c in Cw` for one keyword on its level): it consumes
+    exactly one recorded `random.choice` per chunk, in order, and afterwards chunk `k` of the keyword is in the bucket its draw
+    names — the chunk-to-bucket assignment is the list of recorded choices, whatever the keyword and the identifiers are;
+    earlier contents of the buckets are kept. -/
+theorem DP17.chunks_go_where_the_choices_say (cfg : DP17Cfg) (lv : Leaves) (k1 k2 w : Bytes) (i : Nat) (cw : List (List Bytes))
+    (count : Nat) (lvl : Level) (HT : Table) (t : Tape) (lvl' : Level) (HT' : Table) (t' : Tape)
+    (h : DP17.placeChunks cfg lv k1 k2 w i cw count lvl HT t = .ok (lvl', HT', t')) (hwf : DP17.WFL lvl) :
+    ∃ xs : List Nat, t = xs.map Draw.nat ++ t' ∧ xs.length = cw.length ∧
+      ∀ k, k < cw.length → ∀ id ∈ cw[k]!, DP17.InBucket lvl' xs[k]! (some (w, id)) :=
+  (DP17.placeChunks_choices cfg lv k1 k2 w i cw count lvl HT t lvl' HT' t' h hwf).2.2
 
 /-- non-vacuity of "moves": two samples whose tails differ name different slot sets -/
 example : (3 : Nat) ∈ [1, 2, 3].drop (3 - 1) ∧ (3 : Nat) ∉ [3, 1, 2].drop (3 - 1) := by decide
